@@ -10,6 +10,7 @@ package main
 //   arbitrary-bytes    random bytes, token soup, non-ASCII bytes in identifiers/strings/comments
 //   selectors          valid / invalid / failing / control-flow root selectors
 //   panic-prone-operations  every operation of the language on edge operands in every evaluating context
+//   runaway-recursion  unbounded and very deep recursion of every call shape, padded so that a missing limit overflows the Go stack at once
 //
 // Every case compares class,out with the model; the oracle flags any class
 // outside ok/syntax/runtime/json by itself (core.go flags timeouts/crashes).
@@ -18,6 +19,7 @@ import (
 	"fmt"
 	"io"
 	"math/rand"
+	"os"
 	"strings"
 	"time"
 
@@ -650,15 +652,56 @@ var c01TokClasses = [][]string{
 
 // c01Terminates runs the program on the real code with the interpreter's own
 // loop limit switched on (the `fuzzing` flag: while/for loops error out after
-// 10000 rounds, recursion is bounded by the call depth limit anyway) and says
-// whether the run finished without hitting that limit. It only FILTERS mutants
+// 10000 rounds; a program that defines a function runs in a worker process instead,
+// see c01PreRunIsolated) and says whether the run finished without hitting that limit. It only FILTERS mutants
 // that loop for ever; it never decides a verdict.
 func c01Terminates(prog string, sels []string, files []File) bool {
 	return c01PreRun(prog, sels, files) != "loops"
 }
 
+// c01PreWorker is the worker process in which programs that define a function are pre-run.
+var c01PreWorker *worker
+
+// c01PreRunIsolated: the pre-run of a program that can recurse. In this process the
+// interpreter's call-depth limit would be the only thing between a runaway recursion and
+// Go's fatal "stack overflow", which no recover() catches: the check itself would die (a
+// machinery failure, exit 2) on exactly the implementations it has to flag -- those whose
+// limit is broken. So such a program runs in a worker process (without the loop limit: a
+// loop that never ends costs the timeout). No answer in time = "loops" (the mutant is
+// dropped); a worker that died = "done": the case goes through and the pooled run flags it.
+func c01PreRunIsolated(prog string, sels []string, files []File) string {
+	if c01PreWorker == nil {
+		self, err := os.Executable()
+		if err != nil {
+			return "done"
+		}
+		c01PreWorker = &worker{argv: []string{self, "implworker"}, env: []string{"GOMEMLIMIT=2GiB"}, timeout: 1500 * time.Millisecond}
+	}
+	if ParseResp(c01PreWorker.ask(RunReq(prog, sels, files, false)))["class"] == "timeout" {
+		return "loops"
+	}
+	return "done"
+}
+
+// c01DefinesFunction: the text parses and defines at least one function (the parser
+// recurses no deeper than the text nests, so parsing in this process is safe).
+func c01DefinesFunction(prog string) (yes bool) {
+	defer func() {
+		if recover() != nil {
+			yes = false // a parser panic ends the run before anything is evaluated
+		}
+	}()
+	lex := lang.NewLexer(prog)
+	parser := lang.NewParser(&lex)
+	p, err := parser.Parse()
+	return err == nil && len(p.Functions) > 0
+}
+
 // c01PreRun: "loops" or "done".
 func c01PreRun(prog string, sels []string, files []File) string {
+	if strings.Contains(prog, "function") && c01DefinesFunction(prog) {
+		return c01PreRunIsolated(prog, sels, files)
+	}
 	done := make(chan string, 1)
 	go func() {
 		defer func() {
@@ -757,6 +800,12 @@ func c01GenMutation(r *rand.Rand, tier string, emit func(Case)) {
 		seeds = append(seeds, c01Build(r, ctx, chain, ctl).prog)
 	}
 	dropped := 0
+	defer func() {
+		if c01PreWorker != nil {
+			c01PreWorker.stop()
+			c01PreWorker = nil
+		}
+	}()
 	try := func(seedNo int, toks []string, desc string) {
 		prog := c01Render(toks)
 		in := ins[1]
@@ -1506,6 +1555,310 @@ func c01GenEdgeOps(r *rand.Rand, tier string, emit func(Case)) {
 	}
 }
 
+// ---------------------------------------------------------------------------
+// runaway recursion: the CRASH class of the call-depth limit. Every shape through
+// which a user function can reach itself (a plain call, no parameters, mutual
+// recursion, match expression / block bodies and subjects, array patterns, nested
+// matches, loop bodies and headers, method arguments and receivers, call arguments,
+// index / member selectors, literals, conditions, rule patterns) recurses without
+// a base case -- or with one far beyond the limit -- and the recursive call sits
+// inside a deep pad of nested operators, so that each level takes tens to hundreds
+// of kilobytes of Go stack: an implementation that fails to stop the recursion dies
+// with Go's fatal "stack overflow" (class crash, within seconds) or, at best, runs
+// into the worker's timeout; neither is one of the outcomes C01 allows. Expected
+// everywhere: the runtime error "call depth limit exceeded" with the output
+// printed before it.
+//
+// Finding K1 (clean tree; KNOWN_FINDINGS.txt, fam_known.go): the limit counts frames, not Go stack. ~2 KB of Go
+// stack per nested operator x the nesting around the call x 4096 levels exceeds the
+// 512 MB that Go's 1 GB cap effectively allows once a level nests ~80 operators: the
+// real binary dies with "fatal error: stack overflow" on
+//   function f(n) { return 0+(0+( …80 times… f(n + 1) … )) } BEGIN { print f(0) }
+// The generator stays below that product: in the "late-pad" form (most cases) every
+// function counts its calls in a global and only levels beyond 4200 -- which the
+// limit never lets a run reach -- use the deep pad (150-300 operators); the
+// "padded" form of the seeded witness (a pad on every level) and the count-down
+// shapes that must complete within the limit use at most 40.
+
+// c01Pad nests call inside n operators of one kind (every form starts with an
+// operand, so that it can open a statement: a leading { would be a block).
+func c01Pad(kind int, n int, call string) string {
+	switch kind {
+	case 1: // array literal + index selector
+		return "0+" + strings.Repeat("[", n) + call + strings.Repeat("][0]", n)
+	case 2: // unary minus and an addition, alternating
+		return strings.Repeat("-(0+(", n/2) + call + strings.Repeat("))", n/2)
+	case 3: // object literal + member selector
+		return "0+" + strings.Repeat("{k: ", n) + call + strings.Repeat("}.k", n)
+	}
+	return strings.Repeat("0+(", n) + call + strings.Repeat(")", n)
+}
+
+// c01RFn is one function of a recursion shape: the body has §…§ around every recursive call.
+type c01RFn struct{ sig, body string }
+
+type c01Rec struct {
+	name  string
+	fns   []c01RFn
+	entry string
+}
+
+var c01RunawayShapes = []c01Rec{
+	{"direct", []c01RFn{{"f(n)", "return §f(n + 1)§"}}, "f(0)"},
+	{"direct-no-parameters", []c01RFn{{"f()", "return §f()§"}}, "f()"},
+	{"direct-no-parameters-statement", []c01RFn{{"f()", "§f()§"}}, "f()"},
+	{"direct-statement", []c01RFn{{"f(n)", "§f(n + 1)§\n return 1"}}, "f(0)"},
+	{"direct-assignment", []c01RFn{{"f(n)", "v = §f(n + 1)§\n return v"}}, "f(0)"},
+	{"direct-surplus-and-missing-arguments", []c01RFn{{"f(a, b)", "return §f(a, b, 1)§ + §f()§"}}, "f(0)"},
+	{"direct-two-calls", []c01RFn{{"f(n)", "return §f(n + 1)§ + §f(n + 2)§"}}, "f(0)"},
+	{"mutual-2", []c01RFn{{"a(n)", "return §b(n + 1)§"}, {"b(n)", "return §a(n + 1)§"}}, "a(0)"},
+	{"mutual-2-no-parameters", []c01RFn{{"a()", "§b()§"}, {"b()", "§a()§"}}, "a()"},
+	{"mutual-3", []c01RFn{{"a(n)", "return §b(n + 0)§"}, {"b(n)", "x = §c(n + 1)§\n return x"}, {"c(n)", "if (§a(n)§) return 1\n return 0"}}, "a(0)"},
+	{"match-expr-body", []c01RFn{{"f(n)", "return match (n) { x => §f(x + 1)§ }"}}, "f(0)"},
+	{"match-expr-body-no-binding", []c01RFn{{"f(n)", "return match (1) { 1 => §f(n + 1)§ }"}}, "f(0)"},
+	{"match-expr-body-second-case", []c01RFn{{"f(n)", "return match (n) { -1 => 0, \"s\", [q] => 1, x => §f(x + 1)§ }"}}, "f(0)"},
+	{"match-block-body", []c01RFn{{"f(n)", "match (n) { x => { return §f(x + 1)§ } }"}}, "f(0)"},
+	{"match-block-body-statement", []c01RFn{{"f(n)", "match (n) { x => { §f(x)§ } }\n return 1"}}, "f(0)"},
+	{"match-array-pattern", []c01RFn{{"f(n)", "return match (n) { [a] => §f([a])§, _ => 0 }"}}, "f([1])"},
+	{"match-array-pattern-nested-block", []c01RFn{{"f(n)", "match (n) { [[a], b] => { return §f([[b], a])§ } }"}}, "f([[1], 2])"},
+	{"match-subject", []c01RFn{{"f(n)", "return match (§f(n + 1)§) { x => x }"}}, "f(0)"},
+	{"match-no-parameters", []c01RFn{{"f()", "return match (1) { x => §f()§ }"}}, "f()"},
+	{"nested-match-expr", []c01RFn{{"f(n)", "return match (n) { a => match (a) { b => §f(b + 1)§ } }"}}, "f(0)"},
+	{"nested-match-block", []c01RFn{{"f(n)", "match (n) { a => { match (a) { b => { return §f(b + 1)§ } } } }"}}, "f(0)"},
+	{"nested-match-3-mixed", []c01RFn{{"f(n)", "return match (n) { a => match ([a]) { [b] => { match (b) { c => { return §f(c + 1)§ } } } } }"}}, "f(0)"},
+	{"mutual-through-two-matches", []c01RFn{{"a(n)", "return match (n) { x => §b(x + 1)§ }"}, {"b(n)", "match (n) { y => { return §a(y + 1)§ } }"}}, "a(0)"},
+	{"mutual-match-and-plain", []c01RFn{{"a(n)", "return match (n) { x => §b(x)§ }"}, {"b(n)", "return §a(n + 1)§"}}, "a(0)"},
+	{"loop-for-in", []c01RFn{{"f(n)", "for (x in [n]) { return §f(x + 1)§ }"}}, "f(0)"},
+	{"loop-for-in-object", []c01RFn{{"f(n)", "for (k, v in {a: n}) { return §f(v + 1)§ }"}}, "f(0)"},
+	{"loop-while", []c01RFn{{"f(n)", "while (true) { return §f(n + 1)§ }"}}, "f(0)"},
+	{"loop-c-for", []c01RFn{{"f(n)", "for (j = 0; j < 1; j++) { §f(n + 1)§ }"}}, "f(0)"},
+	{"loop-while-condition", []c01RFn{{"f(n)", "while (§f(n + 1)§) { return 1 }"}}, "f(0)"},
+	{"loop-for-in-iterable", []c01RFn{{"f(n)", "for (x in §f(n + 1)§) { return 1 }"}}, "f(0)"},
+	{"loop-c-for-clauses", []c01RFn{{"f(n)", "for (j = §f(n + 1)§; j < 1; j++) { return 1 }"}}, "f(0)"},
+	{"loops-in-match-in-loop", []c01RFn{{"f(n)", "for (x in [n]) { match (x) { y => { while (true) { return §f(y + 1)§ } } } }"}}, "f(0)"},
+	{"match-in-loop-expr", []c01RFn{{"f(n)", "for (x in [n, n]) { v = match (x) { y => §f(y + 1)§ } }"}}, "f(0)"},
+	{"method-argument-contains", []c01RFn{{"f(n)", "return [n].contains(§f(n + 1)§)"}}, "f(0)"},
+	{"method-argument-push", []c01RFn{{"f(n)", "a = []\n a.push(§f(n + 1)§)\n return a"}}, "f(0)"},
+	{"method-argument-split", []c01RFn{{"f(n)", "return \"a,b\".split(§f(n + 1)§)"}}, "f(0)"},
+	{"method-argument-pluck", []c01RFn{{"f(n)", "return {a: 1}.pluck(\"a\", §f(n + 1)§)"}}, "f(0)"},
+	{"method-receiver", []c01RFn{{"f(n)", "return §f(n + 1)§.length()"}}, "f(0)"},
+	{"method-argument-in-match", []c01RFn{{"f(n)", "return match (n) { x => [x].contains(§f(x + 1)§) }"}}, "f(0)"},
+	{"call-argument", []c01RFn{{"g(v)", "return v"}, {"f(n)", "return g(§f(n + 1)§)"}}, "f(0)"},
+	{"call-argument-own", []c01RFn{{"f(n)", "return f(§f(n + 1)§)"}}, "f(0)"},
+	{"builtin-argument-printf", []c01RFn{{"f(n)", "printf(\"%s\", §f(n + 1)§)"}}, "f(0)"},
+	{"builtin-argument-json", []c01RFn{{"f(n)", "return json(§f(n + 1)§)"}}, "f(0)"},
+	{"builtin-argument-num", []c01RFn{{"f(n)", "return num(§f(n + 1)§)"}}, "f(0)"},
+	{"index-selector", []c01RFn{{"f(n)", "return [n, n][§f(n + 1)§]"}}, "f(0)"},
+	{"index-selector-of-root", []c01RFn{{"f(n)", "return $[§f(n + 1)§]"}}, "f(0)"},
+	{"index-selector-assigned", []c01RFn{{"f(n)", "t[§f(n + 1)§] = 1"}}, "f(0)"},
+	{"member-selector-base", []c01RFn{{"f(n)", "return §f(n + 1)§.k.l"}}, "f(0)"},
+	{"member-selector-assigned", []c01RFn{{"f(n)", "[§f(n + 1)§][0].k = 1"}}, "f(0)"},
+	{"index-selector-in-match", []c01RFn{{"f(n)", "return match (n) { x => [x][§f(x + 1)§] }"}}, "f(0)"},
+	{"array-literal", []c01RFn{{"f(n)", "return [n, §f(n + 1)§]"}}, "f(0)"},
+	{"object-literal", []c01RFn{{"f(n)", "return {a: n, b: §f(n + 1)§}"}}, "f(0)"},
+	{"condition-if", []c01RFn{{"f(n)", "if (§f(n + 1)§) return 1\n return 0"}}, "f(0)"},
+	{"condition-and-or", []c01RFn{{"f(n)", "return n < 0 || true && §f(n + 1)§"}}, "f(0)"},
+	{"unary-not", []c01RFn{{"f(n)", "return !§f(n + 1)§"}}, "f(0)"},
+	{"compare-regex", []c01RFn{{"f(n)", "return §f(n + 1)§ ~ /a/"}}, "f(0)"},
+	{"print-argument", []c01RFn{{"f(n)", "print n < 0, §f(n + 1)§"}}, "f(0)"},
+	{"compound-assignment", []c01RFn{{"f(n)", "t += §f(n + 1)§\n return t"}}, "f(0)"},
+}
+
+// the same with a base case that an unlimited implementation would reach: the
+// argument counts down from d; frames = how many frames one level opens
+var c01DeepShapes = []struct {
+	name   string
+	fns    []c01RFn
+	frames int
+}{
+	{"direct", []c01RFn{{"f(n)", "if (n <= 0) return 0\n return 1 + §f(n - 1)§"}}, 1},
+	{"mutual-2", []c01RFn{{"f(n)", "if (n <= 0) return 0\n return 1 + §g(n - 1)§"}, {"g(n)", "if (n <= 0) return 0\n return 1 + §f(n - 1)§"}}, 1},
+	{"match-expr-body", []c01RFn{{"f(n)", "return match (n) { 0 => 0, x => 1 + §f(x - 1)§ }"}}, 2},
+	{"match-block-body", []c01RFn{{"f(n)", "match (n) { 0 => { return 0 }\n x => { return 1 + §f(x - 1)§ } }"}}, 2},
+	{"nested-match", []c01RFn{{"f(n)", "if (n == 0) return 0\n return match (n) { a => match (a) { b => 1 + §f(b - 1)§ } }"}}, 3},
+	{"match-array-pattern", []c01RFn{{"f(n)", "return match ([n]) { [0] => 0, [x] => 1 + §f(x - 1)§ }"}}, 2},
+	{"loop-in-match", []c01RFn{{"f(n)", "for (x in [n]) { match (x) { 0 => { return 0 }\n y => { return 1 + §f(y - 1)§ } } }"}}, 2},
+	{"method-argument-in-match", []c01RFn{{"f(n)", "return match (n) { 0 => 0, x => 1 + [§f(x - 1)§].pop() }"}}, 2},
+	{"index-selector", []c01RFn{{"f(n)", "if (n <= 0) return 0\n return [0, 1 + §f(n - 1)§][1]"}}, 1},
+}
+
+type c01RecCtx struct {
+	name  string
+	tmpl  string // %s = the entry call
+	doc   string
+	sels  []string
+	extra int // frames open where the entry call is made
+}
+
+var c01RecCtxs = []c01RecCtx{
+	{"BEGIN", "BEGIN { print \"start\"\n print %s\n print \"after\" }\n", "", nil, 0},
+	{"END", "{ cnt++ }\nEND { print \"start\"\n print %s\n print \"after\" }\n", "[1,2]", nil, 0},
+	{"rule-body", "{ print \"start\"\n print %s\n print \"after\" }\n", "[7]", nil, 0},
+	{"rule-pattern", "BEGIN { print \"start\" }\n%s || true { print \"after\" }\n", "[7]", nil, 0},
+	{"BEGINFILE", "BEGINFILE { print \"start\"\n print %s\n print \"after\" }\n", "[7]", nil, 0},
+	{"ENDFILE", "ENDFILE { print \"start\"\n print %s\n print \"after\" }\n", "{\"a\":1}", nil, 0},
+	{"match-block-at-rule-level", "BEGIN { print \"start\"\n match (1) { q => { print %s } }\n print \"after\" }\n", "", nil, 1},
+	{"match-expr-at-rule-level", "BEGIN { print \"start\"\n print match (1) { q => %s }\n print \"after\" }\n", "", nil, 1},
+	{"wrapper-function", "function w() { return %s }\nBEGIN { print \"start\"\n print w()\n print \"after\" }\n", "", nil, 1},
+	{"wrapper-function-match", "function w(v) { return match (v) { q => %s } }\n{ print \"start\"\n print w($)\n print \"after\" }\n", "[7]", nil, 2},
+	{"loop-at-rule-level", "BEGIN { print \"start\"\n for (k in [1]) { print %s }\n print \"after\" }\n", "", nil, 0},
+	{"rule-body-after-selector", "{ print \"start\"\n print %s\n print \"after\" }\n", "{\"a\":{\"b\":[7]}}", []string{"$.a.b"}, 0},
+}
+
+// c01Body pads the recursive calls of a function body.
+func c01Body(body string, padKind, padN int) string {
+	parts := strings.Split(body, "§")
+	var sb strings.Builder
+	for i, p := range parts {
+		if i%2 == 1 {
+			sb.WriteString(c01Pad(padKind, padN, p))
+		} else {
+			sb.WriteString(p)
+		}
+	}
+	return sb.String()
+}
+
+// c01RecProg renders the functions and the starting rule. late == 0: the pad on every
+// level. late > 0: levels below `late` run the body without a pad, the later ones with
+// it; the level is the parameter n where every call passes n + 1 (found in the top
+// frame: the other variables cost a walk down the whole frame chain on every use),
+// else a global that every function increments.
+func c01RecProg(s c01Rec, ctx c01RecCtx, entry string, padKind, padN, late int) string {
+	var sb strings.Builder
+	for _, f := range s.fns {
+		switch {
+		case late > 0 && strings.Contains(f.body, "§") && c01ByArg(s):
+			fmt.Fprintf(&sb, "function %s { if (n < %d) { %s } else { %s } }\n", f.sig, late, c01Body(f.body, 0, 0), c01Body(f.body, padKind, padN))
+		case late > 0 && strings.Contains(f.body, "§"):
+			fmt.Fprintf(&sb, "function %s { lvl++\n if (lvl < %d) { %s } else { %s } }\n", f.sig, late, c01Body(f.body, 0, 0), c01Body(f.body, padKind, padN))
+		default:
+			fmt.Fprintf(&sb, "function %s { %s }\n", f.sig, c01Body(f.body, padKind, padN))
+		}
+	}
+	return sb.String() + fmt.Sprintf(ctx.tmpl, entry)
+}
+
+// c01ByArg: every recursing function is X(n), started with 0, and every recursive call passes … + 1
+func c01ByArg(s c01Rec) bool {
+	ok := strings.HasSuffix(s.entry, "(0)")
+	for _, f := range s.fns {
+		for j, part := range strings.Split(f.body, "§") {
+			if j%2 == 1 && !strings.HasSuffix(part, " + 1)") {
+				ok = false
+			}
+		}
+		if strings.Contains(f.body, "§") && !strings.HasSuffix(f.sig, "(n)") {
+			ok = false
+		}
+	}
+	return ok
+}
+
+func c01GenRunaway(r *rand.Rand, tier string, emit func(Case)) {
+	send := func(row, kind, prog string, ctx c01RecCtx, wantClass, wantOut string) {
+		var files []File
+		if ctx.doc != "" {
+			files = []File{{Name: "in.json", Data: []byte(ctx.doc)}}
+		}
+		meta := map[string]string{"kind": kind, "row": row, "col": ctx.name, "expected": wantClass, "size": fmt.Sprint(len(prog))}
+		if len(prog) <= 3000 {
+			meta["program"] = prog
+		} else {
+			meta["program-head"] = prog[:600]
+		}
+		emit(Case{Req: RunReq(prog, ctx.sels, files, false), Fields: c01Fields, NonTrivial: c01Any, Meta: meta,
+			Oracle: func(i Resp) string {
+				if w := c01ClassOracle(i); w != "" {
+					return w
+				}
+				if i["class"] != wantClass {
+					return "C01/C20: recursion beyond the call-depth limit must stop with a runtime error, recursion within it must complete: expected class " + wantClass + ", got " + i["class"] + " " + i["msg"]
+				}
+				if out := string(i.Bytes("out")); out != wantOut {
+					return fmt.Sprintf("output differs: got %q want %q", short(out), wantOut)
+				}
+				return ""
+			}})
+	}
+	// (a) runaway recursion, late pad: every shape x every starting context (quick: one
+	// context that rotates with the shape)
+	for si, s := range c01RunawayShapes {
+		for ci, ctx := range c01RecCtxs {
+			if nc := len(c01RecCtxs); tier != "thorough" && ci != (si*5+7)%nc {
+				continue
+			}
+			prog := c01RecProg(s, ctx, s.entry, r.Intn(4), 150+r.Intn(150), 4200+r.Intn(300))
+			send(s.name, "runaway late-pad", prog, ctx, "runtime", "start\n")
+		}
+		// the plain form without any pad: stopped by the limit long before the stack matters
+		if tier != "thorough" && si%8 != 0 {
+			continue
+		}
+		send(s.name, "runaway unpadded", c01RecProg(s, c01RecCtxs[0], s.entry, 0, 0, 0), c01RecCtxs[0], "runtime", "start\n")
+	}
+	// (b) the form of the seeded witness: a pad of 20-32 operators on every level (these
+	// fill a few hundred MB of Go stack on the clean tree too: quick runs a seventh of the shapes)
+	for si, s := range c01RunawayShapes {
+		if tier != "thorough" && si%7 != int(r.Int63()%7) {
+			continue
+		}
+		ctx := c01RecCtxs[0]
+		if chance(r, 0.5) {
+			ctx = pick(r, c01RecCtxs)
+		}
+		kind := 0
+		if chance(r, 0.3) {
+			kind = 2
+		}
+		send(s.name, "runaway padded", c01RecProg(s, ctx, s.entry, kind, 20+r.Intn(13), 0), ctx, "runtime", "start\n")
+	}
+	// (c) very deep recursion with a base case: beyond the limit it is the same runtime
+	// error (an implementation that loses count completes it instead); within the limit,
+	// with a pad, it completes with the right value and does not run out of stack
+	for si, s := range c01DeepShapes {
+		for ci, ctx := range c01RecCtxs {
+			if ctx.name == "rule-pattern" {
+				continue
+			}
+			if tier != "thorough" && ci != (si*5+8)%len(c01RecCtxs) {
+				continue
+			}
+			room := (c20Limit - ctx.extra) / s.frames // levels that fit (the base-case call included)
+			for _, d := range []int{room - 1 - r.Intn(40), room + r.Intn(40), 5000 + r.Intn(3000), 12000} {
+				if d == 12000 && tier != "thorough" {
+					continue
+				}
+				kind, n := 0, 5+r.Intn(30)
+				if chance(r, 0.3) {
+					kind = 2
+				}
+				prog := c01RecProg(c01Rec{fns: s.fns}, ctx, fmt.Sprintf("f(%d)", d), kind, n, 0)
+				if d < room {
+					send(s.name, fmt.Sprintf("deep within the limit, depth %d", d), prog, ctx, "ok", fmt.Sprintf("start\n%d\nafter\n", c01PadValue(kind, n, d)))
+				} else {
+					send(s.name, fmt.Sprintf("deep beyond the limit, depth %d", d), prog, ctx, "runtime", "start\n")
+				}
+			}
+		}
+	}
+	// (d) random: shape x context x pad kind x pad depth x where the pad starts
+	for i, n := 0, tierN(tier, 20, 2000); i < n; i++ {
+		s, ctx := pick(r, c01RunawayShapes), pick(r, c01RecCtxs)
+		send(s.name, "runaway late-pad random", c01RecProg(s, ctx, s.entry, r.Intn(4), 100+r.Intn(400), 4097+r.Intn(2000)), ctx, "runtime", "start\n")
+	}
+}
+
+// c01PadValue is the value of a count-down shape for argument d: every level adds 1
+// to what the padded call below it yields; pad kind 2 with an odd number of
+// negations turns that into 1 - value(d-1), value(0) = 0.
+func c01PadValue(kind, n, d int) int {
+	if kind == 2 && (n/2)%2 == 1 {
+		return d % 2
+	}
+	return d
+}
+
 func init() {
 	register(Family{Name: "control-placement", Prop: "C01",
 		Rule: "grammar-directed multi-rule programs (two marker rules of every kind) with one of next/exit/return/break/continue (or a harmless print) wrapped by 1-4 of ~60 wrappers (blocks, if, match bodies in block and expression form, bodies of while/for/for-in, loop HEADERS via match blocks: while condition, the three for clauses, for-in iterable, ~38 expression hosts, functions) placed in BEGIN/END/BEGINFILE/ENDFILE, rule bodies, rule patterns (match block, bare, function) and -r selectors; every context x control x wrapper once, ill-scoped placements also repaired by an enabling loop body/function outside and inside, plus random nestings; inputs none/array/object/scalars/JSONL/several files/empty/malformed/truncated/read failure. Oracle: class in ok|syntax|runtime|json; statically well-scoped => not a syntax error, ill-scoped => syntax error and no output. Non-trivial = program ran (or was rejected as predicted).",
@@ -1522,4 +1875,7 @@ func init() {
 	register(Family{Name: "selectors", Prop: "C01",
 		Rule: "-r selectors from five pools (valid, function/native/regex-valued, syntax error, runtime error, control flow via match blocks: next/exit/print/loops) alone on 7 input shapes and in random lists of 1-3 with 6 programs and all inputs",
 		Gen:  c01GenSelectors})
+	register(Family{Name: "runaway-recursion", Prop: "C01",
+		Rule: "58 shapes of recursion without a base case (direct, without parameters, as a statement, mutual of 2 and 3, through match expression / block bodies, literal and array-pattern cases, the match subject, nested matches, two different matches, for-in / while / for bodies and headers, method arguments and receivers, call and builtin arguments, index / member selectors read and assigned, literals, conditions, print) x 12 starting contexts (BEGIN, END, BEGINFILE, ENDFILE, rule body, rule pattern, match block / expression at rule level, wrapper function, wrapper function with a match, loop, after a -r selector). Late-pad form: every function counts its calls and from level 4200-4500 on (never reached when the limit works) the recursive call sits inside 150-300 nested operators (additions, array literal + index, negation, object literal + member), so that an unstopped recursion overflows the Go stack within a second; padded form (the seeded witness): 20-32 operators on every level; unpadded form; 9 count-down shapes at depths just within the limit (must complete with the exact value), just beyond it, 5000-8000 (thorough: 12000) (must be the runtime error, not a completed run); random shape x context x pad x pad start (quick: one rotating starting context per shape, a seventh of the padded forms, one context per count-down shape). Oracle: class runtime with exactly the prior output (class ok with the value within the limit); a crash / timeout / panic of the worker is a violation by itself; model comparison on class,out.",
+		Gen:  c01GenRunaway})
 }
